@@ -151,7 +151,8 @@ def after_remove(env, r, case):
     listeners = [(Mapper, 'after_insert', m.track_inserts), (Mapper, 'after_update', m.track_updates),
                  (Mapper, 'after_delete', m.track_deletes), (Session, 'before_flush', m.before_flush),
                  (Session, 'after_flush', m.after_flush), (Session, 'after_commit', m.clear),
-                 (Session, 'after_rollback', m.clear), (sa.engine.Engine, 'before_execute', m.track_association_operations),
+                 (Session, 'after_rollback', m.clear), (Session, 'after_transaction_create', m.track_savepoint),
+                 (Session, 'after_soft_rollback', m.rollback_savepoint), (sa.engine.Engine, 'before_execute', m.track_association_operations),
                  (sa.engine.Engine, 'rollback', m.clear_connection)]
     sc.remove_versioning()
     env.versioned = False          # Env.close must not call remove_versioning a second time
